@@ -41,10 +41,12 @@ private theorem bits3 (f g : Bool → Bool → Bool → Bool) (b c d : UInt32)
   intro i _
   rw [hl, hr, hfg]
 
-/-- the selection function as the Go code writes it, `d ^ (b & (c ^ d))`, is RFC 1320's `F = XY v not(X)Z` -/
-private theorem ff_fn_eq_F (b c d : UInt32) : d ^^^ (b &&& (c ^^^ d)) = Spec.F b c d := by
-  apply bits3 (fun p q r => r ^^ (p && (q ^^ r))) (fun p q r => (p && q) || (!p && r)) b c d
-  · intro i; simp
+/-- the extractor names the bitwise part of `ff` by its truth table (`tools/extract/md4_bitfn.go`: whatever spelling the
+    Go code uses — `d ^ (b & (c ^ d))`, `(b & c) | (^b & d)`, a helper — the table 0xca regenerates `bitfn3_ca`, any other
+    table another name and this file stops compiling); table 0xca is RFC 1320's `F = XY v not(X)Z` -/
+private theorem ff_fn_eq_F (b c d : UInt32) : bitfn3_ca b c d = Spec.F b c d := by
+  apply bits3 (fun p q r => (r ^^ (p && q)) ^^ (p && r)) (fun p q r => (p && q) || (!p && r)) b c d
+  · intro i; simp [bitfn3_ca]
   · intro i
     simp only [Spec.F, UInt32.toBitVec_or, UInt32.toBitVec_and, UInt32.toBitVec_not, BitVec.getLsbD_or,
       BitVec.getLsbD_and, BitVec.getLsbD_not]
@@ -55,13 +57,15 @@ private theorem ff_fn_eq_F (b c d : UInt32) : d ^^^ (b &&& (c ^^^ d)) = Spec.F b
       simp [hi, hb, hd]
   · intro p q r; cases p <;> cases q <;> cases r <;> rfl
 
-/-- the majority function as the Go code writes it, `(b & c) | (d & (b | c))`, is RFC 1320's
-    `G = XY v XZ v YZ` -/
-private theorem gg_fn_eq_G (b c d : UInt32) : (b &&& c) ||| (d &&& (b ||| c)) = Spec.G b c d := by
-  apply bits3 (fun p q r => (p && q) || (r && (p || q))) (fun p q r => (p && q) || (p && r) || (q && r)) b c d
-  · intro i; simp
+/-- table 0xe8 (the bitwise part of `gg`, e.g. `(b & c) | (d & (b | c))`) is RFC 1320's majority `G = XY v XZ v YZ` -/
+private theorem gg_fn_eq_G (b c d : UInt32) : bitfn3_e8 b c d = Spec.G b c d := by
+  apply bits3 (fun p q r => ((p && q) ^^ (p && r)) ^^ (q && r)) (fun p q r => (p && q) || (p && r) || (q && r)) b c d
+  · intro i; simp [bitfn3_e8]
   · intro i; simp [Spec.G]
   · intro p q r; cases p <;> cases q <;> cases r <;> rfl
+
+/-- table 0x96 (the bitwise part of `hh`) is RFC 1320's parity `H = X xor Y xor Z` -/
+private theorem hh_fn_eq_H (b c d : UInt32) : bitfn3_96 b c d = Spec.H b c d := rfl
 
 private theorem ff_eq (x : Nat → UInt32) (a b c d : UInt32) (k s : Nat) (h0 : 0 < s) (h1 : s < 32) :
     ff a b c d (x k) (UInt32.ofNat s) = Spec.op1 x a b c d k s := by
@@ -75,8 +79,8 @@ private theorem gg_eq (x : Nat → UInt32) (a b c d : UInt32) (k s : Nat) (h0 : 
 
 private theorem hh_eq (x : Nat → UInt32) (a b c d : UInt32) (k s : Nat) (h0 : 0 < s) (h1 : s < 32) :
     hh a b c d (x k) (UInt32.ofNat s) = Spec.op3 x a b c d k s := by
-  unfold hh Spec.op3 Spec.H
-  rw [rol_eq_rotl _ _ h0 h1]
+  unfold hh Spec.op3
+  rw [rol_eq_rotl _ _ h0 h1, hh_fn_eq_H]
 
 variable (x : Nat → UInt32) (a b c d : UInt32) (k : Nat)
 private theorem ff3 : ff a b c d (x k) 3 = Spec.op1 x a b c d k 3 := ff_eq x a b c d k 3 (by omega) (by omega)
